@@ -80,6 +80,8 @@ def pline (ps : PState) (line : String) : PState :=
         { ps with cfg := { cap := c, mode := .inproc }, single := some (mode.drop 7).toString }
       else { ps with err := some s!"bad mode {mode}" }
   | ["file", _] => ps
+  | "pre" :: _ => ps
+  | "fixture" :: _ => ps        -- scripted suite fixtures: the model treats suite fixtures as logging only
   | ["kill", point, occ, how, test] => { ps with kill := some { point := point, occ := occ.toNat?.getD 1, how := how, test := test } }
   | ["begin", name, su, td] => { ps with stack := { name := name, su := su = "1", td := td = "1" } :: ps.stack }
   | ["end"] =>
